@@ -67,6 +67,7 @@ from ._loaders_dumpers import (
 from ._namespace import (
     Namespace,
     NSKeyError,
+    del_clash_mark,
     is_meta_key,
     patch_namespace,
     recreate_branches,
@@ -1390,9 +1391,9 @@ class ArgumentParser(ParserDeprecations, ActionsContainer, ArgumentLinking, argp
             cfg_branch = cfg
             cfg = Namespace()
             cfg[parent_key] = cfg_branch
-            keys = [parent_key + "." + k for k in cfg_branch.__dict__.keys()]
+            keys = [parent_key + "." + del_clash_mark(k) for k in cfg_branch.__dict__.keys()]
         else:
-            keys = list(cfg.__dict__.keys())
+            keys = [del_clash_mark(k) for k in cfg.__dict__.keys()]
 
         if prev_cfg:
             prev_cfg = prev_cfg.clone()
@@ -1422,7 +1423,7 @@ class ArgumentParser(ParserDeprecations, ActionsContainer, ArgumentLinking, argp
                 if isinstance(value, dict):
                     value = Namespace(value)
                 if isinstance(value, Namespace):
-                    new_keys = value.__dict__.keys()
+                    new_keys = [del_clash_mark(k) for k in value.__dict__.keys()]
                     keys += [key + "." + k for k in new_keys if key + "." + k not in keys]
                 cfg[key] = value
                 continue
